@@ -67,7 +67,9 @@ def canon_ledger(led):
 def canon_yields(ys):
     # PEP 380: a GeneratorExit subclass (PlanHalt) thrown into a delegating generator reaches the inner
     # generators as close() -> plain GeneratorExit; both are "closed" for the plan
-    return [[y[0], y[1], "GeneratorExit" if y[1] == "throw" and y[2] == "PlanHalt" else y[2]] for y in ys if y[0] >= 0]
+    # closes (also by garbage collection of an abandoned frame) are not compared: only what the plan
+    # is sent / thrown while it can still react
+    return [y for y in ys if y[0] >= 0 and not (y[1] == "throw" and y[2] in ("PlanHalt", "GeneratorExit"))]
 
 
 def canon_model(m):
@@ -238,6 +240,8 @@ def gen_script(rng, n_arr, dense=False):
     fut = 0
     for _ in range(k):
         at = rng.randrange(0, max(1, n_arr + 2))
+        if rng.random() < 0.2:
+            at = max(0, n_arr - 1)  # the exit sleep(0) of _run (S4) when the plan runs to completion
         r = rng.random()
         if r < 0.35:
             act = {"a": "pause", "defer": rng.random() < 0.25}
@@ -266,3 +270,87 @@ def gen_scenario(rng, dense=False):
     base = run_scenario(number(copy.deepcopy(sc)))
     sc["script"] = gen_script(rng, len(base["arrivals"]), dense)
     return number(sc)
+
+
+# ----------------------------------------------------------------------------- shared check runner
+def _impl_worker(sc):
+    try:
+        return run_scenario(sc)
+    except Exception as e:  # noqa
+        return {"crash": f"{type(e).__name__}: {e}"}
+
+
+def run_many(scenarios, workers=1):
+    if workers <= 1 or len(scenarios) < 40:
+        return [_impl_worker(sc) for sc in scenarios]
+    import multiprocessing as mp
+
+    with mp.get_context("fork").Pool(workers) as pool:
+        return pool.map(_impl_worker, scenarios, chunksize=8)
+
+
+def features(sc, o):
+    f = set()
+    for acts in sc.get("script", {}).values():
+        for a in acts:
+            f.add("act:" + a["a"] + (":defer" if a.get("defer") else ""))
+    for r in o.get("returns", []):
+        f.add("ret:" + r[1])
+    for k in set(o.get("arrivals", [])):
+        f.add("arr:" + k)
+    if o.get("refused"):
+        f.add("refused")
+    for t in o.get("trans", []):
+        f.add("state:" + t[1])
+    return f
+
+
+def run_property(ctx, prop, oracle, gen=None, quick=150, thorough=3000, model=True, extra_scenarios=()):
+    """Generic engine check: corpus + generated scenarios on the real RunEngine; `oracle(sc, obs)` ->
+    list of (sig, what); the same scenarios through the Lean model; disagreements reported."""
+    res = C.Result(rule="scenario = generated plan AST x fake-device modes x environment script (requests / status completions / monitor updates placed at arrival indices of _run's suspension points) x post-pause decisions; non-trivial = at least one request, refusal, device failure or non-success exit occurred; distinct by scenario hash")
+    scs = []
+    corpus = C.VERIF / "corpus" / prop
+    if corpus.exists():
+        for f in sorted(corpus.glob("*.json")):
+            scs.append(json.loads(f.read_text())["case"])
+    scs += list(extra_scenarios)
+    gen = gen or gen_scenario
+    for _ in range(ctx.budget(quick, thorough)):
+        scs.append(gen(ctx.rng))
+    workers = 12 if (ctx.tier == "thorough" or ctx.deep) else 1
+    impl = run_many(scs, workers)
+    models = None
+    if model:
+        replies = C.lean_batch(DRIVER, [json.dumps(sc) for sc in scs], timeout=3000)
+        models = [canon_model(json.loads(r)) for r in replies]
+    for idx, (sc, o) in enumerate(zip(scs, impl)):
+        if "crash" in o:
+            res.notes.append("harness crash: " + o["crash"])
+            continue
+        fs = features(sc, o)
+        nontriv = bool(fs - {"ret:return", "arr:S1", "arr:S4", "state:running", "state:idle"})
+        res.seen(sc, nontriv)
+        for f in fs:
+            res.count(f)
+        for sig, what in oracle(sc, o):
+            res.violations.append(C.Violation(sig, what, sc))
+        if models is not None:
+            d = diff(models[idx], canon_impl(o))
+            if d:
+                res.disagreements.append({"case": sc, "first_difference": d})
+    for i in (0, len(scs) // 2, len(scs) - 1):
+        if 0 <= i < len(scs) and "crash" not in impl[i]:
+            res.samples.append({"scenario": scs[i], "impl": {k: impl[i][k] for k in ("trans", "returns", "arrivals", "docs")}, "model_agrees": (models is None) or diff(models[i], canon_impl(impl[i])) is None})
+    return res
+
+
+def replay_property(ctx, data, oracle):
+    res = C.Result()
+    sc = data.get("case")
+    if not sc:
+        return res
+    o = run_scenario(sc)
+    for sig, what in oracle(sc, o):
+        res.violations.append(C.Violation(sig, what, sc))
+    return res
